@@ -38,8 +38,13 @@ def rand_chain(rng, closed, fam=None, maxn=8):
     fam = fam or rng.choice(["int", "int", "dyadic", "float"])
     pts = lambda: (oc.rand_coord(rng, fam), oc.rand_coord(rng, fam))
     nodes = []
+    axis = rng.random() < 0.35          # outlines with exactly vertical / horizontal steps between on-curve nodes (the usual font geometry)
     while len(nodes) < n + 1:
         p = pts()
+        if axis and nodes and rng.random() < 0.6:
+            p = (nodes[-1][0], p[1]) if rng.random() < 0.5 else (p[0], nodes[-1][1])
+        if axis and len(nodes) == n - 1 and n >= 3 and rng.random() < 0.7:
+            p = (nodes[0][0], p[1]) if rng.random() < 0.5 else (p[0], nodes[0][1])       # the last node straight above / beside the first
         if p not in nodes:
             nodes.append(p)
     if closed:
